@@ -378,11 +378,13 @@ def run_monitor(ctx, traces, timeout=1200):
                      extra_files={"graphs.ndjson": _ndjson(graphs), "raw.ndjson": _ndjson(log),
                                   "trace.ndjson": _ndjson([_reset(1, True)])})
     st = {"states": r.distinct, "transitions": r.generated, "wall": r.wall, "events": len(log)}
-    m = _MONRES.search(r.out)
-    if not m or r.distinct < len(log):
+    pos = r.out.find('"MONRESULT"')
+    if pos < 0 or r.distinct < len(log):
         raise Inconclusive("RunnerMon did not consume the logs (%d states for %d events):\n%s" % (r.distinct, len(log), r.out[-3000:]))
     results = [{"ok": True} for _ in traces]
-    for ri, name, at in _MONTUP.findall(m.group(1)):
+    # TLC pretty-prints the register over several lines
+    end = r.out.find("\nError:", pos)
+    for ri, name, at in _MONTUP.findall(r.out[pos:end if end > 0 else len(r.out)]):
         ri, at = int(ri), int(at)
         # the verdict is written at the reset line that ENDS the log: the log starts at the previous reset
         k = max(j for j in range(len(todo)) if starts[j] < ri)
